@@ -84,6 +84,8 @@ type resultJ struct {
 	Obs       []obsJ `json:"obs"`
 	Panic     string `json:"panic,omitempty"`
 	Shutdowns []int  `json:"shutdowns,omitempty"`
+	XShutdowns []int `json:"xshutdowns,omitempty"`
+	StormKinds []string `json:"storm_kinds,omitempty"`
 	FreshRec  bool   `json:"fresh_rec,omitempty"`
 	FlushErr  string `json:"flush_err,omitempty"`
 	ShutErr   string `json:"shut_err,omitempty"`
@@ -445,8 +447,10 @@ func childStorm(sc scenario) resultJ {
 	total := sc.N + sc.Extra
 	procs := make([]*countProc, total)
 	kinds := []string{"PCount", "PSimple XStd", "PBatch XStd", "PSimple XNil", "PBatch XNil", "PBatch XMem"}
+	chosen := make([]string, total)
 	for i := range procs {
-		procs[i] = mkSpanProc(i, kinds[r.Intn(len(kinds))], rec, out)
+		chosen[i] = kinds[r.Intn(len(kinds))]
+		procs[i] = mkSpanProc(i, chosen[i], rec, out)
 	}
 	var opts []sdktrace.TracerProviderOption
 	for i := 0; i < sc.N; i++ {
@@ -507,11 +511,18 @@ func childStorm(sc scenario) resultJ {
 	close(start)
 	wg.Wait()
 	var res resultJ
+	res.StormKinds = chosen
 	res.Shutdowns = make([]int, total)
-	calls, _ := rec.take()
+	res.XShutdowns = make([]int, total)
+	calls, xcalls := rec.take()
 	for _, c := range calls {
 		if c.K == "KShutdown" {
 			res.Shutdowns[c.ID]++
+		}
+	}
+	for _, c := range xcalls {
+		if c.K == "KXShutdown" {
+			res.XShutdowns[c.ID]++
 		}
 	}
 	_, sp := tp.Tracer("after").Start(context.Background(), "s")
@@ -519,10 +530,15 @@ func childStorm(sc scenario) resultJ {
 	sp.End()
 	res.FlushErr = errClass(tp.ForceFlush(context.Background()))
 	res.ShutErr = errClass(tp.Shutdown(context.Background()))
-	calls, _ = rec.take()
-	for _, c := range calls { // a second Shutdown must not reach any processor again
+	calls, xcalls = rec.take()
+	for _, c := range calls { // a second Shutdown must not reach any processor (or exporter) again
 		if c.K == "KShutdown" {
 			res.Shutdowns[c.ID]++
+		}
+	}
+	for _, c := range xcalls {
+		if c.K == "KXShutdown" {
+			res.XShutdowns[c.ID]++
 		}
 	}
 	return res
@@ -882,7 +898,14 @@ func scenarioCoq(sc scenario, res *resultJ) string {
 	for _, c := range res.Shutdowns {
 		sh = append(sh, fmt.Sprint(c))
 	}
-	return fmt.Sprintf("CStorm %d %d [%s] %v %s %s", sc.N, sc.Extra, strings.Join(sh, ";"), res.FreshRec, res.FlushErr, res.ShutErr)
+	sk := make([]string, len(res.StormKinds))
+	for i, k := range res.StormKinds {
+		sk[i] = k
+		if strings.Contains(k, " ") {
+			sk[i] = "(" + k + ")"
+		}
+	}
+	return fmt.Sprintf("CStorm [%s] %d %d [%s] %s %v %s %s", strings.Join(sk, "; "), sc.N, sc.Extra, strings.Join(sh, ";"), intsCoq(res.XShutdowns), res.FreshRec, res.FlushErr, res.ShutErr)
 }
 
 // ---- generators ----
